@@ -324,12 +324,13 @@ func ancestorWalkCmp(fn *ssa.Function) *ssa.BinOp {
 			}
 			// an error return guarded by a comparison on the walking value against a parameter
 			fromPhi := an.ForwardReach(cyc, nil)
-			for _, b2 := range fn.Blocks {
-				ret, ok := b2.Instrs[len(b2.Instrs)-1].(*ssa.Return)
-				if !ok || len(ret.Results) == 0 {
+			for _, alt := range an.ReturnAlts(fn) {
+				ret := alt.Ret
+				_ = ret
+				if len(ret.Results) == 0 {
 					continue
 				}
-				for _, g := range an.Guards(ret) {
+				for _, g := range alt.Guards {
 					bo, ok := g.Cond.(*ssa.BinOp)
 					if !ok || (bo.Op != token.EQL && bo.Op != token.NEQ) {
 						continue
@@ -344,7 +345,7 @@ func ancestorWalkCmp(fn *ssa.Function) *ssa.BinOp {
 					if !dependsOnParam(other) {
 						continue
 					}
-					if (bo.Op == token.EQL) == g.Truth && !an.IsNilConst(ret.Results[len(ret.Results)-1]) {
+					if (bo.Op == token.EQL) == g.Truth && !an.IsNilConst(alt.Results[len(alt.Results)-1]) {
 						return bo
 					}
 				}
